@@ -18,7 +18,7 @@ func init() {
 		Rule: "Privmsg, Privmsgln, Privmsgf, Notice, Ctcp, CtcpReply and Action are called over a live in-memory connection with SplitLen in {-5,0,1,12,13,14,20,50,450,1000}; texts: every string over {a, space, '.'} " +
 			"of the stated lengths at SplitLen 13 (exhaustive), and PRNG texts of 0..6000 bytes from classes (no spaces, only spaces, each separator .:;,!?\"' + space placed at offsets s-5..s+1, separator at offset 0, " +
 			"multi-byte runes, '...' already present, arbitrary bytes). Judged on the wire: piece length <= SplitLen, '...' on every piece but the last, no empty piece, pieces minus markers concatenate to the text, " +
-			"same target, exactly one piece when the text fits. In the concurrent mode the server PINGs between the pieces (every PING answered exactly once, no line torn). SplitLen values include MinInt, MinInt+1, MinInt+2, MinInt32 and -1; every third session sets SplitLen through Config() on the connected client. Every 97th text is sent again right after Config().SplitLen was changed. distinct_nontrivial = distinct (method, SplitLen, cut rule used: sentence/word/hard, number of pieces bucket, text class) among texts that were actually split.",
+			"same target, exactly one piece when the text fits. In the concurrent mode the server PINGs between the pieces (every PING answered exactly once, no line torn). SplitLen values include MinInt, MinInt+1, MinInt+2, MinInt32 and -1; every third session sets SplitLen through Config() on the connected client. Every 97th text is sent again right after Config().SplitLen was changed. Half of the sessions follow an RPL_ISUPPORT announcement with a long LINELEN (the split length stays the application's). distinct_nontrivial = distinct (method, SplitLen, cut rule used: sentence/word/hard, number of pieces bucket, text class) among texts that were actually split.",
 		Assumptions: []string{"calls issued from one goroutine; consecutive wire lines are attributed to calls by the per-call target token", "flood control off (Flood=true)"},
 		Plan: func(tier string, seed int64) []Batch {
 			var bs []Batch
